@@ -72,3 +72,30 @@ Example any_view_pinned_refuted :
   any_capacity 32 (header_of c ch) <> capacity c ch /\
   any_allocated 32 (header_of c ch) = 20 /\ allocated_in c ch = 4.
 Proof. vm_compute. repeat split; try reflexivity. discriminate. Qed.
+
+(* ---------------- the header NonDummyChunk::new writes in the CURRENT source (gen/AllocSites.v) is header_of *)
+From BS.gen Require AllocSites.
+
+Theorem new_chunk_header_refines c ch :
+  cfg_ok c -> chunk_geom c ch ->
+  if up c then
+    AllocSites.new_chunk_up_header (cbase ch) = Ok (h_addr (header_of c ch)) /\
+    AllocSites.new_chunk_up_pos (cbase ch) (hs c) = Ok (fresh_pos c ch) /\
+    AllocSites.new_chunk_up_end (cbase ch) (csize ch) = Ok (h_end (header_of c ch))
+  else
+    AllocSites.new_chunk_down_header (cbase ch) (csize ch) (hs c) = Ok (h_addr (header_of c ch)) /\
+    AllocSites.new_chunk_down_pos (h_addr (header_of c ch)) = Ok (fresh_pos c ch) /\
+    AllocSites.new_chunk_down_end (cbase ch) = Ok (h_end (header_of c ch)).
+Proof.
+  intros Hc Hg. unfold chunk_geom in Hg.
+  destruct Hg as (Hb & Hdb & H16 & Hdn & Hhs & Hreq & Hsz & HW & HI).
+  assert (Hh : 32 <= hs c) by (unfold cfg_ok, hdr_ok in Hc; tauto).
+  unfold header_of, fresh_pos, content_start, content_end.
+  destruct (up c); cbn [h_addr h_end].
+  - unfold AllocSites.new_chunk_up_header, AllocSites.new_chunk_up_pos, AllocSites.new_chunk_up_end.
+    rewrite mul_ok by lia. cbn [bindc]. rewrite !add_ok by lia. repeat split; try reflexivity.
+    cbn [bindc Word.run]. f_equal. lia.
+  - unfold AllocSites.new_chunk_down_header, AllocSites.new_chunk_down_pos, AllocSites.new_chunk_down_end.
+    rewrite add_ok by lia. cbn [bindc]. rewrite mul_ok by lia. cbn [bindc]. rewrite sub_ok by lia.
+    repeat split; try reflexivity. cbn [bindc Word.run]. f_equal. lia.
+Qed.
